@@ -100,7 +100,8 @@ def handle (d : DSt) (n : Nat) (line : String) : IO DSt := do
         some ob, some fi, some re, some exe, some fz, some hasEp =>
         let c : Ctx := { authenticated := auth, endpointZone := epz, originZone := org, localZone := d.localZone,
                          objExists := ex, objZone := oz, senderIsCommandEndpoint := cmdep && epz.isSome,
-                         execEndpointZone := if ex then ez else none,
+                         execEndpointZone := if ex && m == .executedCommand then ez else none,
+                         forwardZone := if m == .executeCommand then ez else none,
                          acceptConfig := acfg, acceptCommands := acmd }
         let o : Obs := { objects := ob, files := fi, relayed := re, executed := exe }
         let mut d := { d with caseNo := d.caseNo + 1 }
